@@ -546,6 +546,7 @@ func runChild(p Property, c Case, exe, tmpRoot, tier string) (*CaseResult, bool)
 	cmd.Env = append(os.Environ(),
 		"GOTRACEBACK=all",
 		"VERIF_WORKDIR="+dir,
+		fmt.Sprintf("VERIF_CASE_IDX=%d", c.Idx),
 		"GORACE=halt_on_error=0 log_path="+filepath.Join(dir, "race"),
 	)
 	cmd.SysProcAttr = &syscall.SysProcAttr{Setpgid: true}
